@@ -522,6 +522,9 @@ func (z *ioDecReader) jsonReadNum() (bs []byte, token byte) {
 			start -= numshift
 			pos -= numshift
 			if numread == 0 {
+				if !z.done { // the reader failed (not EOF): the number may not be complete
+					z.checkErr()
+				}
 				end = pos
 				token = 0 // EOF before the next token
 				goto END
